@@ -32,6 +32,11 @@ def ethFloorAccept (minGPraw : Nat) (typ : Nat) (gas gasPrice tip cap baseFee : 
     let fee := if typ = 0 then gasPrice * gas else effectivePrice (typ = 2) gasPrice tip cap baseFee * gas
     decide (minGPraw * gas ≤ fee * dec18)
 
+/-- the decorator over a transaction carrying several Ethereum messages (typ, gas, gasPrice, tip, cap): the floor is
+    enforced for every message on its own -/
+def ethFloorAcceptTx (minGPraw baseFee : Nat) (msgs : List (Nat × Nat × Nat × Nat × Nat)) : Bool :=
+  msgs.all fun m => ethFloorAccept minGPraw m.1 m.2.1 m.2.2.1 m.2.2.2.1 m.2.2.2.2 baseFee
+
 /-- VerifyFee: the fee cap must not be below the base fee; the up-front fee is effectivePrice × gasLimit -/
 def verifyFee (typ gas gasPrice tip cap baseFee : Nat) : Option Nat :=
   let feeCap := if typ = 2 then cap else gasPrice
